@@ -22,6 +22,7 @@ def listify : Ty → Ty
   | .garray n t => .garray n (listify t)
   | .seq k sz t => .seq (listifyKind k) sz (listify t)
   | .box sz t => .box sz (listify t)
+  | .wrap t => .wrap (listify t)
   | .range t => .range (listify t)
   | .enum idxs ts => .enum idxs (listifyList ts)
   | t => t
@@ -48,6 +49,7 @@ def renorm : Ty → Val → Val
   | .garray _ t, .seq vs => .seq (vs.map (renorm t))
   | .seq k _ t, .seq vs => .seq (postKind k (vs.map (renorm t)))
   | .box _ t, v => renorm t v
+  | .wrap t, v => renorm t v
   | .range t, .seq [a, b] => .seq [renorm t a, renorm t b]
   | .enum idxs ts, .variant idx v => .variant idx (renormPayload idxs ts (idx % 256) v)
   | _, v => v
@@ -76,6 +78,7 @@ def noBits : Ty → Bool
   | .garray _ t => noBits t
   | .seq _ _ t => noBits t
   | .box _ t => noBits t
+  | .wrap t => noBits t
   | .range t => noBits t
   | .bitseq _ _ => false
   | .enum _ ts => noBitsList ts
